@@ -968,7 +968,10 @@ class Bytes(Construct):
 
     def _build(self, obj, stream, context, path):
         length = self.length(context) if callable(self.length) else self.length
-        data = integer2bytes(obj, length) if isinstance(obj, int) else obj
+        try:
+            data = integer2bytes(obj, length) if isinstance(obj, int) else obj
+        except ValueError as e:
+            raise IntegerError(str(e), path=path)
         data = bytes(data) if type(data) is bytearray else data
         stream_write(stream, data, length, path)
         return data
